@@ -245,3 +245,95 @@ _run_c16b = run
 def run(ctx):  # noqa: F811
     _run_c16b(ctx)
     r16_3(ctx, ctx.model)
+
+
+def r16_4(ctx, m):
+    """two-loop recursion of L_BFGS: loop directions and the pair used for the initial Hessian scaling"""
+    from ..util import cfg_of
+    from ..terms import canon, inline_at
+    ctx.rule("R16.4", "L_BFGS.get_descent_direction is the two-loop recursion: the first loop visits the stored pairs from the newest "
+                      "(k-1) to the oldest, the second from the oldest to the newest, both through index i % maxhist; the initial "
+                      "Hessian scaling <s,y>/<y,y> uses the NEWEST pair - the index reaching that statement is defined as "
+                      "(k-1) % maxhist, not the loop variable left over from the backward loop (which is the oldest pair)", floor=3)
+    C = m.cls(DM, "L_BFGS")
+    fi = C.methods.get("get_descent_direction")
+    if fi is None:
+        ctx.error("R16.4: L_BFGS.get_descent_direction missing")
+        return
+    ctx.saw_func(fi)
+    cfg = cfg_of(fi)
+    rd = cfg.reaching_defs(fi.params())
+    loops = [st for st in walk_no_nested(fi.node) if isinstance(st, ast.For) and isinstance(st.iter, ast.Call) and src(st.iter.func) == "range"]
+    loops.sort(key=lambda st: st.lineno)
+    key = f"{fi.key}::loop directions"
+    if len(loops) != 2:
+        ctx.und("R16.4", key, f"{len(loops)} range loops", fi)
+        return
+    l1, l2 = loops
+    # resolve local aliases (k, nhist, maxhist are plain locals)
+    a1 = [canon(x, add=True) for x in l1.iter.args]
+    a2 = [canon(x, add=True) for x in l2.iter.args]
+
+    def cn(t):
+        return canon(ast.parse(t, mode="eval").body, add=True)
+    # names: take them from the second loop's stop (newest+1 = k) and the first loop's start (k-1)
+    kname = src(l2.iter.args[1]) if len(l2.iter.args) >= 2 else None
+    ok1 = len(a1) == 3 and kname is not None and a1[0] == cn(f"{kname}-1") and a1[2] in (cn("-1"),)
+    ok2 = len(a2) == 2 and kname is not None
+    # same number of visited pairs: start2 == stop1 + 1
+    same = ok1 and ok2 and canon(ast.parse(f"({src(l1.iter.args[1])}) + 1", mode="eval").body, add=True) in (a2[0], cn(f"1 + ({src(l1.iter.args[1])})"))
+    if same is False and ok1 and ok2:
+        # compare through exact linear forms
+        from ..poly import poly, p_add, p_const, p_str
+        try:
+            d = p_add(poly(ast.parse(f"({src(l1.iter.args[1])}) + 1 - ({src(l2.iter.args[0])})", mode="eval").body), p_const(0))
+            same = p_str(d) == "0"
+        except Exception:
+            same = None
+    ctx.check("R16.4", key, (ok1 and ok2 and same) if same is not None else None,
+              f"first loop range({', '.join(src(x) for x in l1.iter.args)}), second loop range({', '.join(src(x) for x in l2.iter.args)})", fi, l1)
+    # index through the ring buffer
+    for lp, nm in ((l1, "first"), (l2, "second")):
+        iv = lp.target.id if isinstance(lp.target, ast.Name) else None
+        idx = [st for st in lp.body if isinstance(st, ast.Assign) and isinstance(st.value, ast.BinOp) and isinstance(st.value.op, ast.Mod)]
+        ctx.check("R16.4", f"{fi.key}::{nm} loop addresses the ring buffer at i % history length",
+                  len(idx) == 1 and src(idx[0].value.left) == iv, src(idx[0]) if idx else None, fi, lp)
+    # the scaling statement
+    facts = [n for n in cfg.nodes if n.kind == "stmt" and isinstance(n.ast, ast.Assign) and isinstance(n.ast.value, ast.BinOp)
+             and isinstance(n.ast.value.op, ast.Div) and l1.end_lineno < n.ast.lineno < l2.lineno and "s_vdot" in src(n.ast.value)]
+    key = f"{fi.key}::initial Hessian scaling uses the newest pair"
+    if len(facts) != 1:
+        ctx.und("R16.4", key, f"{len(facts)} candidate scaling statements between the loops", fi)
+        return
+    n = facts[0]
+    subs = {src(x.slice) for x in ast.walk(n.ast.value) if isinstance(x, ast.Subscript)}
+    if len(subs) != 1:
+        ctx.und("R16.4", key, f"indices {sorted(subs)}", fi, n.ast)
+        return
+    ix = next(iter(subs))
+    defs = (rd.get(n.id) or {}).get(ix, ())
+    dtexts = []
+    for d in defs:
+        dn = cfg.nodes[d]
+        dtexts.append(src(dn.ast) if dn.ast is not None else "<param>")
+    mod_name = None
+    good = bool(defs) and all(cfg.nodes[d].kind == "stmt" and isinstance(cfg.nodes[d].ast, ast.Assign) and
+                              canon(cfg.nodes[d].ast.value, add=True) in {canon(ast.parse(f"({kname}-1) % {mh}", mode="eval").body, add=True)
+                                                                         for mh in {src(st.value.right) for lp in loops for st in lp.body
+                                                                                    if isinstance(st, ast.Assign) and isinstance(st.value, ast.BinOp) and isinstance(st.value.op, ast.Mod)}}
+                              for d in defs)
+    from_loop = any(cfg.nodes[d].ast is not None and any(cfg.nodes[d].ast is st for st in l1.body) for d in defs)
+    if good:
+        ctx.ok("R16.4", key, f"`{ix}` defined by {dtexts}", fi, n.ast)
+    elif from_loop:
+        ctx.bad("R16.4", key, f"`{ix}` reaches the scaling from the backward loop ({dtexts}): after that loop it addresses the OLDEST stored pair", fi, n.ast)
+    else:
+        ctx.und("R16.4", key, f"`{ix}` defined by {dtexts}", fi, n.ast)
+
+
+_run_c16c = run
+
+
+def run(ctx):  # noqa: F811
+    _run_c16c(ctx)
+    r16_4(ctx, ctx.model)
